@@ -172,31 +172,19 @@ def run(repo, chk):
     chk.ob("R04.4", "interpret.Interactor.interact:intercept-sees-original", len(frdef) == 1 and [norm(a_) for a_ in frdef[0].value.args] == [vname] and not conds(frdef[0], ia.node)
            and not any(order(d) < order(frdef[0]) for d in defs), ia.where,
            "the intercept is asked once, with the original value as the tentative value")
-    wi = repo.func("interpret.WorkingFrame.intercept")
-    fwi = facts_of(wi)
-    wr = returns_of(wi.node)
-    R = wr[0].value.id if len(wr) == 1 and isinstance(wr[0].value, ast.Name) else "<result>"
-    init = [n for n in wi.node.body if isinstance(n, ast.Assign) and is_name(n.targets[0], R)]
-    chk.ob("R04.4", "interpret.WorkingFrame.intercept:default-ABSENT", len(init) == 1 and is_name(init[0].value, "ABSENT") and len(wr) == 1, wi.where,
-           "without an answering handler the result is ABSENT (= keep the original value)")
-    inner = [n for n in walk_local(wi.node) if isinstance(n, ast.Assign) and is_name(n.targets[0], R) and n not in init]
-    ok = len(inner) == 1
-    if ok:
-        ans = expand(inner[0].value, wi.node)
-        cs = [c for t, c, n in fwi.items if n is inner[0]][0]
-        gate = f"{ans} is not ABSENT"
-        if isinstance(inner[0].value, ast.Name):        # the answer may be named inside the test itself: `(tmp := acc.intercept(..)) is not ABSENT`
-            for w_ in ast.walk(wi.node):
-                if isinstance(w_, ast.NamedExpr) and is_name(w_.target, inner[0].value.id):
-                    ans = norm(w_.value)
-                    gate = f"({inner[0].value.id} := {ans}) is not ABSENT"
-        ok = ans.startswith("acc.intercept(") and gate in cs and not any(R in names_in(ast.parse(c, mode="eval")) for c in conds(inner[0], wi.node))
-    chk.ob("R04.4", "interpret.WorkingFrame.intercept:last-non-ABSENT-wins", ok, wi.where,
-           "each handler's non-ABSENT answer overwrites the previous one (no 'first answer sticks' condition on the result)")
-    loops = [n for n in walk_local(wi.node) if isinstance(n, ast.For)]
-    chk.ob("R04.4", "interpret.WorkingFrame.intercept:list-order", len(loops) == 1 and norm(loops[0].iter) == "self.accumulators", wi.where,
-           "handlers are asked in list order (no reversal), so 'last' is the last registered")
-
+    # x += e keeps the user's own statement (in-place semantics of +=, |= ... on mutable objects) and reports / overrides the result afterwards
+    from ..xform.terms import GenericVisit as _GV, In as _In
+    bad_aug = []
+    for p_ in H.get("visit_AugAssign", []):
+        tops_ = [x for x, _, _ in Q.stmts_of(p_.template)]
+        t0_ = tops_[0] if tops_ else None
+        if not (isinstance(t0_, _GV) and isinstance(t0_.x, _In) and t0_.x.path == "node"):
+            bad_aug.append(Q.show(p_.template, 140))
+    chk.ob("R04.2", "visit_AugAssign:the-original-augmented-assignment-runs-first", bool(H.get("visit_AugAssign")) and not bad_aug, "ptera/transform.py (visit_AugAssign)",
+           "an instrumented `x += e` still executes `x += e` itself (so a list aliased elsewhere is extended in place) and then stores what interact returns: declining leaves the "
+           "binding as the original program made it" + (f" -- {bad_aug[:1]}" if bad_aug else ""))
+    from .shared import intercept_combination_obligations, registration_obligations
+    intercept_combination_obligations(repo, chk, "R04.4")
     # ---------------- R04.5
     pl = repo.func("overlay.HandlerCollection.plus")
     r = returns_of(pl.node)
@@ -219,17 +207,7 @@ def run(repo, chk):
     chk.ob("R04.5", "overlay.HandlerCollection.proceed:children-inserted-at-owner-position", ok, pr.where,
            "the children of a matching selector go into the same ordered list, at the position of their owner: an older call-path override stays older than a newer flat one in the callee "
            "(a separate list appended at the end would reverse 'most recently activated wins')")
-    rg = repo.func("interpret.Interactor.register")
-    frg = facts_of(rg)
-    accp = rg.node.args.args[1].arg
-    regs_ = [n for t, c, n in frg.items if isinstance(n, ast.Call) and t.startswith("self.accumulators[")]
-    ok = len(regs_) == 1 and norm(regs_[0].func).endswith("].append") and norm(regs_[0].args[0]) == f"(element, {accp})" and not conds(regs_[0], rg.node) \
-        and frg.loops(regs_[0]) == [f"for (element, varnames) in {rg.node.args.args[2].arg}.items()", f"for {norm(regs_[0].func.value.slice)} in varnames"]
-    chk.ob("R04.5", "interpret.Interactor.register:appends", ok, rg.where, "accumulators are registered by appending")
-    wf = repo.func("interpret.WorkingFrame.__init__")
-    lc = [n for n in walk_local(wf.node) if isinstance(n, ast.ListComp)]
-    chk.ob("R04.5", "interpret.WorkingFrame.__init__:keeps-order", len(lc) == 1 and iter_text(lc[0].generators[0].iter) == "accumulators.get(varname, ())", wf.where,
-           "the working frame keeps the registration order of the matching accumulators")
+    registration_obligations(repo, chk, "R04.5")
     en = repo.func("overlay.BaseOverlay.__enter__")
     chk.ob("R04.5", "overlay.BaseOverlay.__enter__:handlers-in-order", facts_of(en).mentions("([(h.selector, h) for h in self.handlers])"), en.where,
            "an overlay contributes its handlers in the order they were added")
